@@ -82,7 +82,11 @@ def nontrivial_classes(events, mtoks):
             cl.add("refused-at-activation")
         if ev[0] == "S" and any(":s." in p and p.endswith(".2") for p in parts):
             cl.add("already-running")
-        if ev == "C" or ev.startswith("K."):
+        if ev.startswith("R.") and any("NotSupported" in p for p in parts):
+            cl.add("held-refused-no-fd-passing")
+        if ev.startswith("R.") and any("LimitsExceeded" in p for p in parts):
+            cl.add("held-refused-reply-limit")
+        if ev in ("C", "CF") or ev.startswith("K.") or ev.startswith("KF."):
             if any(":s." in p for p in parts):
                 cl.add("unique-name-start-reply")
     return cl
